@@ -87,6 +87,8 @@ class Ctx:
         self.pre = []
         self.names = set()
         self.split_mode = None   # dict for split loop body emission
+        self.try_stack = []      # (label of the handler, scope depth at the try) for unwinding edges inside try blocks
+        self.in_handler = 0
     def emit(self, s):
         self.lines.append('  ' * self.ind + s)
     def tmp(self, base='t'):
@@ -1446,10 +1448,49 @@ class Translator:
         elif rt.cls in ('builtin', 'enum'): ret = 'return 0;'
         else: ret = f'return ({rt.c}){{0}};'
         cx.emit('#ifdef MODE_EXC')
-        cx.emit('if (g_exc) { /* unwinding: the destructors run as ordinary code, then the exception continues */')
-        cx.ind += 1; cx.emit('g_exc = 0;'); self.exit_scopes(cx, 0); cx.emit('g_exc = 1;'); cx.emit(ret); cx.ind -= 1
+        if cx.try_stack:
+            label, depth = cx.try_stack[-1]
+            cx.emit('if (g_exc) { /* unwinding inside a try block: the scopes opened in it are left, then the handler runs */')
+            cx.ind += 1; cx.emit('g_exc = 0;'); self.exit_scopes(cx, depth); cx.emit('g_exc = 1;'); cx.emit(f'goto {label};'); cx.ind -= 1
+        else:
+            cx.emit('if (g_exc) { /* unwinding: the destructors run as ordinary code, then the exception continues */')
+            cx.ind += 1; cx.emit('g_exc = 0;'); self.exit_scopes(cx, 0); cx.emit('g_exc = 1;'); cx.emit(ret); cx.ind -= 1
         cx.emit('}')
         cx.emit('#endif')
+
+    def S_CXXTryStmt(self, n, cx):
+        """try { body } catch (...) { handler }: outside mode exc no exception exists and only the body is emitted; in mode
+        exc the unwinding edges of the body lead to the handler, which starts with the exception caught (g_exc = 0)"""
+        kids = n.get('inner', [])
+        body, handlers = kids[0], kids[1:]
+        if not self.cfg.get('exc_edges') or cx.split_mode is not None:
+            raise Unsupported(f'try block in {cx.cname} (unit without unwinding edges)')
+        if len(handlers) != 1 or handlers[0].get('kind') != 'CXXCatchStmt':
+            raise Unsupported(f'try block with {len(handlers)} handlers in {cx.cname}')
+        hk = handlers[0].get('inner', [])
+        if len(hk) != 2 or hk[0].get('kind') not in (None, '') or hk[1].get('kind') != 'CompoundStmt':
+            raise Unsupported(f'handler other than catch (...) in {cx.cname}')
+        label = '__catch' + cx.tmp('h').strip('_')
+        cx.try_stack.append((label, len(cx.scopes)))
+        self.S(body, cx)
+        cx.try_stack.pop()
+        cx.emit('#ifdef MODE_EXC')
+        cx.emit(f'if (0) {{ {label}: ;')
+        cx.ind += 1
+        cx.emit('g_exc = 0;      /* caught */')
+        cx.in_handler += 1
+        self.S(hk[1], cx)
+        cx.in_handler -= 1
+        cx.ind -= 1
+        cx.emit('}')
+        cx.emit('#endif')
+        self.notes.append(f'{cx.cname}: try / catch (...): handler reachable in mode exc only')
+
+    def S_CXXThrowExpr(self, n, cx):
+        if n.get('inner') or not cx.in_handler or not self.cfg.get('exc_edges'):
+            raise Unsupported(f'throw expression in {cx.cname} (only the rethrow "throw;" inside catch (...) is in the vocabulary)')
+        cx.emit('g_exc = 1;      /* rethrow */')
+        self.exc_edge(cx)
 
     def flush_pre(self, cx):
         pre = cx.pre; cx.pre = []
